@@ -14,7 +14,7 @@ type Map interface {
 type base struct{ m map[rune]int }
 
 func (b base) Lookup(r rune) (int, bool) { g, ok := b.m[r]; return g, ok }
-func (b base) Iter() Iter               { return nil }
+func (b base) Iter() Iter                { return nil }
 
 // seeded: overrides Lookup, inherits Iter
 type remapBad struct{ Map }
@@ -29,7 +29,7 @@ func (r remapBad) Lookup(c rune) (int, bool) {
 type remapGood struct{ Map }
 
 func (r remapGood) Lookup(c rune) (int, bool) { return r.Map.Lookup(0xF000 + c) }
-func (r remapGood) Iter() Iter               { return r.Map.Iter() }
+func (r remapGood) Iter() Iter                { return r.Map.Iter() }
 
 // embeds without overriding: fine
 type passThrough struct{ Map }
